@@ -6,7 +6,7 @@ from qstrader.exchange.simulated_exchange import SimulatedExchange
 
 
 def handler(c):
-    ex = SimulatedExchange(ts(0))
+    ex = SimulatedExchange(ts(c.get('exch_start', 0)))
     return [bool(ex.is_open_at_datetime(ts(t))) for t in c['ts']]
 
 
